@@ -541,16 +541,23 @@ package core
 // C05: the result does not depend on how the input is chunked.
 // unread(k) = k.buf ++ instream()[inpos():] : the bytes the consumers still have to see, in order.
 
+// H-NOREPORT, the hypothesis of the C05 kernel: no read delivers a cursor-position report (the hand-off of
+// reports to the goroutine that asked for one is not decided here).  It is a fact about the ghost stream
+// and the chunking only, so it survives every call.
+//@ pred noreports() = rxRcvCursorPos != nil && all(p, 0, len(instream()), !rxmatch(rxRcvCursorPos, instream()[p:p + chunklen(p)]))
+
 //@ func (*Keys).extractCursorPos
-//@   trusted regexp-based: returns (last cursor report, the input with every report removed); for input without a report it returns (empty, keys) unchanged (hypothesis of the C05 kernel: no cursor report in flight)
-//@   requires k != nil
+//@   props C05 C01
+//@   terminates
+//@   requires k != nil && rxRcvCursorPos != nil
 //@   pure
-//@   ensures len(result0) == 0 && result1 == keys
+//@   ensures [no-report-unchanged] !rxmatch(rxRcvCursorPos, keys) ==> len(result0) == 0 && result1 == keys
+//@   ensures [report-cut-out] rxmatch(rxRcvCursorPos, keys) ==> result0 == rxlast(rxRcvCursorPos, keys) && result1 == rxstrip(rxRcvCursorPos, keys)
 
 //@ func (*Keys).readInputFiltered
 //@   props C05 C01
 //@   terminates
-//@   requires k != nil && Stdin != nil && !indead() && 0 <= inpos() && inpos() <= len(instream())
+//@   requires k != nil && Stdin != nil && !indead() && 0 <= inpos() && inpos() <= len(instream()) && noreports()
 //@   assigns inpos(), indead()
 //@   ensures [chunk] result1 == nil && !indead() ==> len(result0) == chunklen(old(inpos()))
 //@   ensures [fails-only-at-the-end] indead() <==> old(inpos()) >= len(instream())
@@ -562,7 +569,7 @@ package core
 //@ func WaitAvailableKeys
 //@   props C05 C01
 //@   terminates
-//@   requires keys != nil && Stdin != nil && !indead() && 0 <= inpos() && inpos() <= len(instream()) && !keys.reading
+//@   requires keys != nil && Stdin != nil && !indead() && 0 <= inpos() && inpos() <= len(instream()) && !keys.reading && noreports()
 //@   assigns keys.cfg, keys.waiting, keys.cursor, keys.buf, keys.mutex, inpos(), indead()
 //@   ensures [no-byte-lost-or-reordered] cfg == nil ==> keys.buf + instream()[inpos():] == old(keys.buf) + instream()[old(inpos()):]
 //@   ensures [only-appends] cfg == nil ==> len(keys.buf) >= old(len(keys.buf)) && keys.buf[:old(len(keys.buf))] == old(keys.buf)
@@ -581,7 +588,7 @@ package core
 //@ func (*Keys).ReadKey
 //@   props C05 C01
 //@   terminates
-//@   requires k != nil && Stdin != nil && !indead() && 0 <= inpos() && inpos() <= len(instream()) && !k.waiting && len(k.macroKeys) == 0
+//@   requires k != nil && Stdin != nil && !indead() && 0 <= inpos() && inpos() <= len(instream()) && !k.waiting && len(k.macroKeys) == 0 && noreports()
 //@   assigns k.keysOnce, k.reading, k.mutex, k.matched, k.macroKeys, k.buf, inpos(), indead()
 //@   ensures [uses-buffered-keys-first] old(len(k.buf)) > 0 ==> inpos() == old(inpos())
 //@   ensures [consumes-exactly-one-character] old(len(unread(k))) > 0 && old(firstw(unread(k))) <= old(len(unread(k))) ==> unread(k) == old(unread(k))[old(firstw(unread(k))):]
@@ -614,3 +621,14 @@ package core
 //@   terminates
 //@   requires l != nil && tokenizer != nil
 //@   pure
+
+// C01: select-a-shell-word terminates (it did not on a word followed by a newline; fix: commit 8db6135).
+// Only termination is claimed here: both expansion loops carry a variant.  Index safety of the positions
+// returned by the quote / blank-word helpers is not proved (assume_nopanic).
+//@ func (*Selection).SelectAShellWord
+//@   props C01
+//@   terminates
+//@   assume_nopanic the positions returned by SurroundQuotes / AdjustSurroundQuotes / SelectBlankWord are not under contract
+//@   requires svalid(s)
+//@   loop 1 decreases mark
+//@   loop 2 decreases len(*s.line) - cpos
